@@ -238,124 +238,3 @@ Proof.
   apply G, tab_sub_refl.
 Qed.
 
-(* ---- delete / rename paths only shrink *)
-Lemma nodes_upd_tab s t n : is_Some (s_eng (upd_tab s t) !! n) <-> is_Some (s_eng s !! n).
-Proof. reflexivity. Qed.
-
-Lemma delete_gateway_ext fixed host s keys s' er :
-  is_Some (s_eng s !! host) -> delete_gateway fixed host s keys = (s', er) -> ext s s'.
-Proof.
-  intros Hn. unfold delete_gateway.
-  destruct (ts_delete fixed _ keys) as [e' er'] eqn:Ed. intros [= <- <-].
-  eapply ext_trans; [apply ext_upd_tab_sub, tab_delete_sub|].
-  apply ext_upd_eng_sub; [exact Hn|]. eapply ts_delete_sub; eassumption.
-Qed.
-
-Lemma is_node_true s n : is_node s n = true <-> is_Some (s_eng s !! n).
-Proof. unfold is_node. apply bool_decide_eq_true. Qed.
-
-Lemma delete_remote_ext fixed p s keys s' er : delete_remote fixed p s keys = (s', er) -> ext s s'.
-Proof.
-  unfold delete_remote. destruct (is_node s p) eqn:En; simpl; [|intros [= <- <-]; apply ext_refl].
-  destruct (any_internal (s_tab s) keys); [intros [= <- <-]; apply ext_refl|].
-  destruct (delete_gateway fixed p s keys) as [s1 er1] eqn:Ed. intros [= <- <-].
-  apply ext_rollback. eapply delete_gateway_ext; [apply is_node_true; eassumption|eassumption].
-Qed.
-
-Lemma delete_peers_ext fixed : forall peers s keys s' er, delete_peers fixed s peers keys = (s', er) -> ext s s'.
-Proof.
-  induction peers as [|p peers IH]; intros s keys s' er; simpl; [intros [= <- <-]; apply ext_refl|].
-  destruct (delete_remote fixed p s _) as [s1 er1] eqn:E1. apply delete_remote_ext in E1.
-  destruct (is_ok er1); [|intros [= <- <-]; assumption].
-  intros H. eapply ext_trans; [eassumption|]. eapply IH; eassumption.
-Qed.
-
-Lemma delete_keys_ext fixed host s keys s' r :
-  is_Some (s_eng s !! host) -> delete_keys fixed host s keys = (s', r) -> ext s s'.
-Proof.
-  intros Hn. unfold delete_keys. destruct (any_internal _ _); [intros [= <- <-]; apply ext_refl|].
-  destruct (delete_peers fixed s _ keys) as [s1 er1] eqn:E1. apply delete_peers_ext in E1.
-  destruct (negb (is_ok er1)) eqn:Eo; simpl.
-  - intros [= <- <-]. eapply ext_trans; [eassumption|apply ext_upd_amb].
-  - destruct (delete_gateway fixed host _ _) as [s3 er3] eqn:E3. intros [= <- <-].
-    eapply ext_trans; [eassumption|]. eapply ext_trans; [apply ext_upd_amb|].
-    eapply ext_trans; [apply ext_upd_tab_sub, tab_delete_sub|].
-    eapply delete_gateway_ext; [|eassumption]. simpl. apply (ext_nodes _ _ E1), Hn.
-Qed.
-
-Lemma delete_by_name_ext fixed host s names s' r :
-  is_Some (s_eng s !! host) -> delete_by_name fixed host s names = (s', r) -> ext s s'.
-Proof.
-  intros Hn. unfold delete_by_name. destruct (lookup_names _ _). apply delete_keys_ext, Hn.
-Qed.
-
-Lemma rename_gateway_ext host s keys names s' er :
-  is_Some (s_eng s !! host) -> rename_gateway host s keys names = (s', er) -> ext s s'.
-Proof.
-  intros Hn. unfold rename_gateway. destruct (tab_rename _ keys names) as [t' er1] eqn:Et.
-  destruct (negb (is_ok er1)); [intros [= <- <-]; apply ext_refl|].
-  destruct (ts_rename _ _) as [e' er2] eqn:Er. intros [= <- <-].
-  eapply ext_trans; [apply ext_upd_tab_sub; eapply tab_rename_sub; eassumption|].
-  apply ext_upd_eng_sub; [exact Hn|]. eapply ts_rename_sub; eassumption.
-Qed.
-
-Lemma rename_free_ext s free s' er : rename_free s free = (s', er) -> ext s s'.
-Proof.
-  unfold rename_free. destruct free; [intros [= <- <-]; apply ext_refl|].
-  destruct (tab_rename _ _ _) as [t' er1] eqn:Et. intros [= <- <-].
-  destruct (is_ok er1); [|apply ext_refl]. apply ext_upd_tab_sub. eapply tab_rename_sub; eassumption.
-Qed.
-
-Lemma rename_remote_ext validate p s kn s' er : rename_remote validate p s kn = (s', er) -> ext s s'.
-Proof.
-  unfold rename_remote. destruct (is_node s p) eqn:En; simpl; [|intros [= <- <-]; apply ext_refl].
-  apply is_node_true in En.
-  destruct (rename_checks validate s _ _) as [er0 amb]. 
-  destruct (negb (is_ok er0)); [intros [= <- <-]; apply ext_upd_amb|].
-  set (s0 := upd_amb s amb).
-  assert (E0 : ext s s0) by apply ext_upd_amb.
-  destruct (if p =? node_boot then _ else _) as [s1 er1] eqn:E1.
-  assert (X1 : ext s0 s1).
-  { destruct (p =? node_boot); [eapply rename_free_ext; eassumption|].
-    destruct (filter _ kn); injection E1 as <- <-; apply ext_refl. }
-  destruct (negb (is_ok er1)).
-  - intros [= <- <-]. eapply ext_trans; [exact E0|]. apply ext_rollback. exact X1.
-  - destruct (filter (fun x => leaseholder x.1 =? p) kn) eqn:Eown.
-    + intros [= <- <-]. eapply ext_trans; eassumption.
-    + destruct (rename_gateway p s1 _ _) as [s2 er2] eqn:E2. intros [= <- <-].
-      eapply ext_trans; [exact E0|]. apply ext_rollback. eapply ext_trans; [exact X1|].
-      eapply rename_gateway_ext; [|eassumption]. apply (ext_nodes _ _ X1). exact En.
-Qed.
-
-Lemma rename_peers_ext validate : forall peers s kn s' er,
-  rename_peers validate s peers kn = (s', er) -> ext s s'.
-Proof.
-  induction peers as [|p peers IH]; intros s kn s' er; simpl; [intros [= <- <-]; apply ext_refl|].
-  destruct (rename_remote validate p s _) as [s1 er1] eqn:E1. apply rename_remote_ext in E1.
-  destruct (is_ok er1); [|intros [= <- <-]; assumption].
-  intros H. eapply ext_trans; [eassumption|]. eapply IH; eassumption.
-Qed.
-
-Lemma rename_keys_ext fixed validate host s keys names s' r :
-  is_Some (s_eng s !! host) -> rename_keys fixed validate host s keys names = (s', r) -> ext s s'.
-Proof.
-  intros Hn. unfold rename_keys.
-  destruct (rename_checks validate s keys names) as [er0 amb].
-  destruct (negb (is_ok er0)); [intros [= <- <-]; apply ext_upd_amb|].
-  set (s0 := upd_amb s amb). assert (E0 : ext s s0) by apply ext_upd_amb.
-  destruct (rename_peers validate s0 _ _) as [s1 er1] eqn:E1. apply rename_peers_ext in E1.
-  set (s1' := upd_amb s1 _). assert (E1' : ext s s1').
-  { eapply ext_trans; [exact E0|]. eapply ext_trans; [exact E1|]. apply ext_upd_amb. }
-  destruct (negb (is_ok er1)); [intros [= <- <-]; exact E1'|].
-  destruct (match filter _ (zip keys names) with [] => _ | _ => _ end) as [s2 er2] eqn:E2.
-  assert (X2 : ext s1' s2).
-  { destruct (filter (fun x => leaseholder x.1 =? node_free) (zip keys names)); [injection E2 as <- <-; apply ext_refl|].
-    destruct (fixed && negb (host =? node_boot)); [eapply rename_remote_ext|eapply rename_free_ext]; eassumption. }
-  destruct (negb (is_ok er2)); [intros [= <- <-]; eapply ext_trans; eassumption|].
-  destruct (filter (fun x => leaseholder x.1 =? host) (zip keys names)).
-  - intros [= <- <-]. eapply ext_trans; eassumption.
-  - destruct (rename_gateway host s2 _ _) as [s3 er3] eqn:E3. intros [= <- <-].
-    eapply ext_trans; [exact E1'|]. eapply ext_trans; [exact X2|].
-    eapply rename_gateway_ext; [|eassumption].
-    apply (ext_nodes _ _ X2), (ext_nodes _ _ E1'), Hn.
-Qed.
